@@ -808,6 +808,47 @@ fn run_lv(rng: &mut Rng, inp: &Input, p: &Props, col0: &ArrayRef, tr: &mut Shard
     tr.next_episode();
 }
 
+/// one small flat column written under a forced value encoding: 0 PLAIN, 1 BYTE_STREAM_SPLIT,
+/// 2 the type's delta encoding, 3 dictionary (with a tiny dictionary page now and then)
+fn forced_encoding_episode(rng: &mut Rng, t: &DataType, mode: usize, tr: &mut Shards, cnt: &mut Counters) {
+    use parquet::basic::Encoding;
+    let n = 10 + rng.below(31);
+    let schema = Arc::new(Schema::new(vec![Field::new("c0", t.clone(), true)]));
+    let np = *rng.pick(&[0usize, 10, 30]);
+    let col = mk::array(rng, t, n, if has_decimal(t) { Cfg::tame(np) } else { Cfg::wild(np) });
+    let ops: Vec<(&'static str, usize)> = if rng.chance(50) { vec![("w", n)] } else { vec![("w", n / 2), ("w", n - n / 2)] };
+    let mut at = 0;
+    let batches: Vec<RecordBatch> = ops
+        .iter()
+        .map(|o| {
+            let b = RecordBatch::try_new(schema.clone(), vec![col.slice(at, o.1)]).unwrap();
+            at += o.1;
+            b
+        })
+        .collect();
+    let inp = Input { schema: schema.clone(), batches, ops };
+    let mut p = Props::random(rng, &schema, n);
+    p.cdc = None;
+    p.maxbytes = None;
+    use parquet::basic::Type as Phys;
+    let phys = ArrowSchemaConverter::new().convert(&schema).ok().map(|d| d.column(0).physical_type());
+    let delta = match phys {
+        Some(Phys::INT32 | Phys::INT64) => Encoding::DELTA_BINARY_PACKED,
+        Some(Phys::BYTE_ARRAY | Phys::FIXED_LEN_BYTE_ARRAY) => Encoding::DELTA_BYTE_ARRAY,
+        _ => Encoding::PLAIN,
+    };
+    if p.enc.len() == 1 {
+        p.dict[0] = mode == 3;
+        p.enc[0] = match mode {
+            0 => Some(Encoding::PLAIN),
+            1 => Some(Encoding::BYTE_STREAM_SPLIT),
+            2 => Some(delta),
+            _ => None,
+        };
+    }
+    run_rt(rng, &inp, &p, tr, cnt);
+}
+
 /// a longer nested column with null runs in the parents and a chosen leaf null density: the
 /// round trip (row tokens) and the levels (Shred) of the same input
 fn dense_episode(rng: &mut Rng, k: usize, rt: &mut Shards, lv: &mut Shards, cnt: &mut Counters) {
@@ -874,6 +915,23 @@ fn main() {
     }
     for _ in 0..args.scale(360, 9000) {
         lv_episode(&mut rng, args.scale(24, 60), &mut lv, &mut cnt);
+    }
+    // every FIXED_LEN_BYTE_ARRAY width (the encoders have per-width code paths) under every value
+    // encoding, and every physical type BYTE_STREAM_SPLIT supports under it
+    for round in 0..args.scale(1, 12) {
+        let _ = round;
+        for w in (1..=17).chain([19, 32, 33, 64, 100]) {
+            for mode in 0..4 {
+                forced_encoding_episode(&mut rng, &DataType::FixedSizeBinary(w), mode, &mut rt, &mut cnt);
+            }
+        }
+        use DataType::*;
+        for t in [Int8, Int16, Int32, Int64, UInt8, UInt16, UInt32, UInt64, Float16, Float32, Float64, Date32, Date64, Time32(TimeUnit::Millisecond),
+                  Timestamp(TimeUnit::Microsecond, None), Duration(TimeUnit::Nanosecond), Decimal32(7, 2), Decimal64(15, 3), Decimal128(9, 2), Decimal128(18, 4),
+                  Decimal128(19, 0), Decimal128(30, 5), Decimal128(38, 10), Decimal256(40, 4), Decimal256(76, 5), Interval(IntervalUnit::DayTime)] {
+            forced_encoding_episode(&mut rng, &t, 1, &mut rt, &mut cnt);
+            forced_encoding_episode(&mut rng, &t, 2, &mut rt, &mut cnt);
+        }
     }
     for k in 0..args.scale(45, 900) {
         dense_episode(&mut rng, k, &mut rt, &mut lv, &mut cnt);
